@@ -730,3 +730,65 @@ theorem clause_right_iff {S : Struct} (hS : S.WF) {cl ε : List QA}
       exact (List.perm_ext_iff_of_nodup hnd1 hnd2).2 hmem
 
 end CC
+
+namespace CC
+open CC.Look
+
+theorem policyWf_clause {S : Struct} {p : AP} (h : Spec.policyWf S p = true) {c : List QA} (hc : c ∈ p.toDnf) :
+    Spec.clauseKnown S c = true ∧ ClauseNodup c := by
+  unfold Spec.policyWf at h
+  have := List.all_eq_true.1 h c hc
+  simp only [Bool.and_eq_true, decide_eq_true_eq] at this
+  exact ⟨this.1, by simpa [Spec.clauseWf, ClauseNodup] using this.2⟩
+
+/-- **Policies**: some right of the encapsulation is one of the rights of the user key iff the
+name-level cover relation holds between the two policies. -/
+theorem rights_meet_iff_covers {S : Struct} (hS : S.WF) {u e : AP}
+    (hu : Spec.policyWf S u = true) (he : Spec.policyWf S e = true) :
+    ∃ ru re, S.uskRights u = .ok ru ∧ S.encRights e = .ok re ∧
+      ((∃ r, r ∈ re ∧ r ∈ ru) ↔ Spec.covers S u e = true) := by
+  -- user side
+  have hcp : ∀ c ∈ u.toDnf, ∃ pts, S.complementaryPoints c = .ok pts := by
+    intro c hc
+    obtain ⟨hk, _⟩ := policyWf_clause hu hc
+    obtain ⟨sem, hsem⟩ := semanticSpace_ok hk
+    simp only [Struct.complementaryPoints, hsem]; exact ⟨_, rfl⟩
+  obtain ⟨ptss, hptss, _, hmemu⟩ := mapMExcept_ok S.complementaryPoints u.toDnf hcp
+  -- encryption side
+  let g : List QA → Except Err Right := fun cl =>
+    (mapMExcept S.getAttribute cl).map (fun as => Right.fromPoint (as.map (·.id)))
+  have hg : ∀ ε ∈ e.toDnf, ∃ r, g ε = .ok r := by
+    intro ε hε
+    obtain ⟨hk, _⟩ := policyWf_clause he hε
+    obtain ⟨eas, heas⟩ := encAttrs_ok hk
+    exact ⟨_, by simp only [g, heas]; rfl⟩
+  obtain ⟨rs, hrs, _, hmeme⟩ := mapMExcept_ok g e.toDnf hg
+  refine ⟨(ptss.flatten.map Right.fromPoint).eraseDups, rs.eraseDups, by simp only [Struct.uskRights, hptss], ?_, ?_⟩
+  · have : S.encRights e = match mapMExcept g e.toDnf with
+        | .error err => .error err
+        | .ok rs => .ok rs.eraseDups := rfl
+    rw [this, hrs]
+  simp only [List.mem_eraseDups, List.mem_map, List.mem_flatten]
+  unfold Spec.covers
+  simp only [List.any_eq_true]
+  constructor
+  · rintro ⟨r, hre, p, ⟨pts, hpts, hp⟩, hpr⟩
+    obtain ⟨c, hc, hcpts⟩ := (hmemu pts).1 hpts
+    obtain ⟨ε, hε, hgε⟩ := (hmeme r).1 hre
+    obtain ⟨hkc, hndc⟩ := policyWf_clause hu hc
+    obtain ⟨hkε, hndε⟩ := policyWf_clause he hε
+    obtain ⟨pts', eas, hpts', heas, hiff⟩ := clause_right_iff hS hndc hndε hkc hkε
+    rw [hcpts] at hpts'; cases hpts'
+    have : r = Right.fromPoint (eas.map (·.id)) := by
+      simp only [g, heas] at hgε
+      cases hgε; rfl
+    exact ⟨c, hc, ε, hε, hiff.1 ⟨p, hp, by rw [hpr, this]⟩⟩
+  · rintro ⟨c, hc, ε, hε, hcov⟩
+    obtain ⟨hkc, hndc⟩ := policyWf_clause hu hc
+    obtain ⟨hkε, hndε⟩ := policyWf_clause he hε
+    obtain ⟨pts, eas, hpts, heas, hiff⟩ := clause_right_iff hS hndc hndε hkc hkε
+    obtain ⟨p, hp, heq⟩ := hiff.2 hcov
+    refine ⟨Right.fromPoint (eas.map (·.id)), (hmeme _).2 ⟨ε, hε, by simp only [g, heas]; rfl⟩, p,
+      ⟨pts, (hmemu pts).2 ⟨c, hc, hpts⟩, hp⟩, heq⟩
+
+end CC
